@@ -23,7 +23,7 @@ ASSUMPTIONS = [
     "ties / guard-band cases are judged by best-first consistency of the library's own assignment, not by equality",
 ]
 MINIMUM = {"evaluations": 2000, "unique_matching": 500, "f:decision.IOU": 100, "f:decision.DSC": 100, "f:decision.ASSD": 100, "f:decision_rejected_an_instance": 100}
-BUDGET_S = {"quick": 600, "thorough": 900}
+BUDGET_S = {"quick": 1200, "thorough": 900}
 
 TINY = {
     # name: (shape, alphabet, input types, quick stride)
